@@ -72,3 +72,47 @@ CHECKS.update({
   'note': 'Which exception an out-of-range \\U or a bytes octal above 0o377 produces is not judged here (C10 owns "documented exception").',
  },
 })
+CHECKS.update({
+ 'C04': {
+  'technique': 'Hypothesis trees x patterns x flags; differential oracle inside wcmatch: glob() result set vs globmatch(REALPATH) over all tree entries; side clauses checked on generated candidates',
+  'text': 'On catalogue and generated trees (symlinks to files/directories/ancestors/nowhere, hidden entries) with 1-2 patterns, optional exclusions (exclude= / inline) and flag subsets, the set glob() returns must equal the set of candidates (every entry, also through symlinked directories and with trailing separators, plus glob\'s own output) that globmatch(REALPATH) accepts, with the root given as root_dir, cwd or dir_fd; non-existent paths and absolute candidates never match; directory-demanding patterns match un-slashed candidates iff they are directories.',
+  'design_ref': 'DESIGN.md section 3 C04',
+  'note': 'Undecided zones (counted as either): a segment pattern that can match the empty string; a `**` adjacent to a `***` under GLOBSTARLONG. Known findings K5, K16, K17 attributed by class; trees are made follow-safe when the flags follow links.',
+ },
+ 'C05': {
+  'technique': 'Hypothesis trees x patterns x flags; oracle 1 = independent reference walker over real directory listings with three-valued segment verdicts (must <= glob <= must+may); oracle 2 = Bash 5.2 pathname expansion on the shared fragment',
+  'text': 'glob()/iglob() results on catalogue and generated trees are compared with a reference walker that interprets the pattern AST segment by segment against real listings (literal segments followed as written, hidden and ./.. rules, `**`/`***` link rules, MATCHBASE prefix, MARK/NODIR formatting) and, for negation-free patterns with a magic segment, with what `bash -O nullglob -O globstar -O extglob [-O dotglob]` expands in the same directory.',
+  'design_ref': 'DESIGN.md 2.5, 2.6, section 3 C05',
+  'note': 'Trusts the reference walker and Bash 5.2.15; language-level findings K2, K3, K4, K8, K20 attributed by class; case-insensitive file systems and Windows drives cannot be exercised.',
+ },
+ 'C06': {
+  'technique': 'Hypothesis symlink-heavy trees (incl. cycles) x globstar patterns; invariants over the os.scandir history recorded by the harness, a listing bound for termination, and the same rule applied to globmatch(REALPATH)',
+  'text': 'Every directory glob() lists is aligned with the pattern: it is a violation only if every alignment puts a symlink component on a `**` that does not follow links; on trees with cycles (generated only when links are not followed) the number of listings must stay under a bound proportional to tree size x segments (non-termination shows as hitting the ceiling); symlinks met by a final `**` must be results; globmatch(REALPATH) must reject candidates that can only be aligned through such a symlink; WcMatch without SYMLINKS never lists below a symlinked directory, with SYMLINKS equals os.walk(followlinks=True).',
+  'design_ref': 'DESIGN.md section 3 C06',
+  'note': 'Termination under FOLLOW on cyclic trees is outside the property and not generated. K17 (MATCHBASE with an all-globstar pattern) attributed by class.',
+ },
+ 'C12': {
+  'technique': 'Hypothesis trees x patterns (relative/absolute) x flags; per-element validity predicate against os.lstat / isdir, and metamorphic equality across five ways of giving the root and iglob vs glob',
+  'text': 'Each element of glob() must exist, be spelled relative/absolute like its pattern, carry a trailing separator only for directories and always under MARK or a directory-demanding pattern, and never be a directory under NODIR; list(iglob()) == glob(); the result set is the same for root_dir as str, bytes and PathLike, for dir_fd and for the working directory.',
+  'design_ref': 'DESIGN.md section 3 C12',
+  'note': 'Ground truth is the OS view of the generated tree.',
+ },
+ 'C13': {
+  'technique': 'Hypothesis trees x pattern lists x exclusions x flags; metamorphic oracle: union / concatenation of single-pattern glob() results filtered by the exclusion predicate',
+  'text': 'glob(list) must be, as a set, the union of glob(p_i) minus paths matched by an exclusion (directory slash, DOTGLOB forced) with no spelling twice; under NOUNIQUE the concatenation in order; also for lists produced by BRACE and SPLIT, inline vs exclude= delivery, IGNORECASE/CASE on a case-sensitive file system with mixed-case names, and Path.glob (no file twice unless NOUNIQUE).',
+  'design_ref': 'DESIGN.md section 3 C13',
+  'note': 'Single-pattern results are trusted here (C05 judges them).',
+ },
+ 'C14': {
+  'technique': 'all 4096 flag subsets on a fixed tree x fixed pattern pairs + Hypothesis trees/patterns/flags; oracle = independent os.scandir walk with fnmatch/globmatch predicates',
+  'text': 'WcMatch.match() and get_skipped() are compared, as multisets and counts, with an independent top-down walk that prunes directories by the exclude predicate, enters symlinked directories only with SYMLINKS, skips hidden entries without HIDDEN and decides files with fnmatch()/globmatch() under the documented flag translation (SPLIT, NEGATE, NEGATEALL, DOTMATCH forced; base name or root-relative path).',
+  'design_ref': 'DESIGN.md section 3 C14',
+  'note': 'Ties WcMatch to the matchers judged by C01-C03/C07; Windows-only hidden attributes unreachable.',
+ },
+ 'C16': {
+  'technique': 'Hypothesis trees x patterns x flags; metamorphic oracle against wcmatch.glob (Path.glob, globmatch, full_match), reference walker with a prepended globstar for rglob, match(REALPATH) <-> rglob correspondence; fixed-point table for ValueError and platform clauses',
+  'text': 'Path.glob equals glob.glob joined onto the root; rglob is compared with the reference walker run on the AST with a leading globstar; PurePath.globmatch/full_match equal glob.globmatch with the class platform forced; q.match(p, REALPATH) holds iff Path(".").rglob(p) yields q for every entry q; no path twice unless NOUNIQUE; absolute patterns and foreign-platform REALPATH raise ValueError; FORCEWIN/FORCEUNIX from the user change nothing.',
+  'design_ref': 'DESIGN.md section 3 C16',
+  'note': 'Patterns with literal ./.. segments, SCANDOTDIR or a leading globstar are not judged for the match<->rglob clause; K3, K4, K8, K16 attributed by class (also through pathlib\'s normalisation of x/. to x).',
+ },
+})
